@@ -54,6 +54,7 @@ func commitProtocol(r *core.Run, p *core.Prog) {
 	ruleDBWriter(r, p)
 	ruleWriteBlocksSummaries(r, p)
 	ruleOpenResume(r, p)
+	ruleDirOpenFresh(r, p)
 }
 
 func c04(r *core.Run) {
